@@ -281,6 +281,21 @@ class Typer:
             if bt is None:
                 return None
             return self.field_ty(bt, t[2])
+        if k == "deref":
+            bt = self.of(t[1], depth + 1)
+            if bt is None:
+                return None
+            bt = bt.strip()
+            if bt.startswith("&"):
+                bt = bt[1:].lstrip()
+                if bt.startswith("'"):
+                    bt = bt.split(" ", 1)[1] if " " in bt else bt
+                if bt.startswith("mut "):
+                    bt = bt[4:]
+                return bt
+            if bt.startswith("std::boxed::Box<"):
+                return _generic_args(bt)[0]
+            return bt
         if k == "payload":
             bt = self.of(t[2], depth + 1)
             if bt is None:
@@ -500,6 +515,12 @@ class Ranger:
             if inner[0] is not None and inner[1] is not None and inner[0] >= tr[0] and inner[1] <= tr[1]:
                 return inner
             return tr
+        if k == "field":
+            for adt, fld, lo, hi in FIELD_RANGES:
+                if t[2] == fld:
+                    bt = self.typer.of(t[1])
+                    if bt and _strip_ref(bt).split("<")[0] == adt:
+                        return (lo, hi)
         if k == "field" and t[2] == "0" and norm(t[1])[0] == "bin" and norm(t[1])[1].endswith("WithOverflow"):
             r = self.rng(t[1], depth + 1)
             # a checked operation's result also lies in its type (the assert guarantees no wrap on the path that continues)
@@ -591,7 +612,7 @@ def _arith(op, a, b):
             return (0, a[1])
         return (None, None)
     if op == "Shl":
-        if allk(a[0], a[1], b[0], b[1]) and a[0] >= 0 and 0 <= b[1] < 200:
+        if allk(a[0], a[1], b[0], b[1]) and a[0] >= 0 and 0 <= b[0] <= b[1] < 200:
             return (a[0] << b[0], a[1] << b[1])
         return (None, None)
     if op == "BitAnd":
@@ -1086,6 +1107,15 @@ class Discharger:
                 break
         if op in ("Shl", "Shr"):
             bits = INT_BITS.get(_strip_ref(ty or ""), None)
+            # the condition of a shift check is `shift < BITS` with BITS the width of the shifted value: read it from there
+            cl = op_place(s.term["cond"])
+            for st in reversed(body.blocks[s.bb]["stmts"]):
+                rv = st.get("rv")
+                if cl is not None and tuple(st["p"]) == tuple(cl) and rv and rv["k"] == "bin" and rv["op"] == "Lt" and "k" in rv["b"]:
+                    kb = const_int(rv["b"]["k"]) if "int" in rv["b"]["k"] else None
+                    if kb is not None:
+                        bits = kb
+                    break
             # the shifted value's type: first operand
             r = pr.ranger.rng(b)
             if bits and r[1] is not None and r[1] < bits and (r[0] is None or r[0] >= 0):
@@ -1322,6 +1352,9 @@ class Inter:
         return res
 
 
+# (adt, field, lo, hi): the field of every value of that type lies in [lo, hi]; verified at every construction and assignment
+FIELD_RANGES = [("erbium_net::Ipv4Subnet", "prefixlen", 0, 32)]
+
 FIELD_INVARIANTS = [
     # (ADT path, small field, big field): small <= len(big) holds whenever a value of the ADT is observable
     ("erbium::pktparser::Buffer", "offset", "buffer"),
@@ -1365,6 +1398,35 @@ def check_field_invariants(P, D):
 
 
 
+def check_field_ranges(P, D):
+    """verify each declared field range at every construction and every assignment of the field"""
+    bad, proven = [], []
+    for adt, fld, lo, hi in FIELD_RANGES:
+        for b in P.bodies.values():
+            T = cterms(P, b)
+            pr = D.prover(b)
+            for bb, idx, s in b.stmts():
+                rv = s.get("rv")
+                if rv is None:
+                    continue
+                newv = None
+                if rv["k"] == "agg" and rv.get("adt") == adt:
+                    t = canon(T.rvalue(rv, bb, idx))
+                    newv, what = dict(t[3]).get(fld), "construction"
+                pl = s["p"]
+                if len(pl) >= 2 and pl[-1] == "." + fld:
+                    ty = pr.ranger.typer.place_ty(pl[:-1])
+                    if ty and _strip_ref(ty).split("<")[0] == adt:
+                        newv, what = canon(T.rvalue(rv, bb, idx)), "assignment"
+                if newv is None:
+                    continue
+                l = pr.lin(newv)
+                r1 = pr.prove(_add(l, ({}, -hi)), bb)
+                r2 = pr.prove(_add(_neg(l), ({}, lo)), bb)
+                (proven if r1 and r2 else bad).append((b, s["sp"], "%s of %s.%s in [%d, %d]" % (what, adt.split("::")[-1], fld, lo, hi), "%s+%s" % (r1, r2) if r1 and r2 else None))
+    return proven, bad
+
+
 _inl = {}
 
 
@@ -1401,6 +1463,9 @@ def inline_pure(P, t):
 
 
 # ====================================================================== stable keys
+
+_SHAPE_BODY = [None]
+
 
 def shape(t, depth=0):
     """position-free rendering of a canonical term (no block numbers, no local numbers except parameters)"""
@@ -1444,7 +1509,13 @@ def shape(t, depth=0):
         return "%s[]" % shape(t[1], depth + 1)
     if k == "clobbered":
         pl = t[2]
-        return "mut(%s%s)" % ("arg%d" % pl[0] if True else "", "".join(e for e in pl[1:] if e != "*"))
+        b = _SHAPE_BODY[0]
+        if b is None or pl[0] <= b.arg_count:
+            root = "arg%d" % pl[0]
+        else:
+            # a local of the function: its source name, else its type (local numbers shift when unrelated code changes)
+            root = b.local_name(pl[0]) or ("tmp:" + re.sub(r"<.*>", "", b.locals[pl[0]]["ty"]).split("::")[-1])
+        return "mut(%s%s)" % (root, "".join(e for e in pl[1:] if e != "*"))
     if k == "phi":
         return "phi(%s)" % "|".join(sorted(shape(x, depth + 1) for x in t[1]))
     if k == "rec":
@@ -1465,7 +1536,9 @@ def site_key(P, D, s):
     pr = D.prover(s.body)
     n = len(s.body.blocks[s.bb]["stmts"])
     ops = [canon(pr.T.operand(o, s.bb, n)) for o in s.ops[:2]]
+    _SHAPE_BODY[0] = s.body
     shp = [shape(o) for o in ops]
+    _SHAPE_BODY[0] = None
     fn = s.body.id
     # the function's own name (closures: the enclosing function's name) keeps reports diagnosable; module path is left out
     parts = [p_ for p_ in fn.split("::") if not p_.startswith("{closure")]
